@@ -605,7 +605,7 @@ pub fn gen_jobs(vs: u64, tier: &str, profile: &str) -> Vec<Job> {
         );
     }
     // (iv) random mixes
-    let nrand = if quick { 40 } else { 400 };
+    let nrand = if quick { 40 } else { 2500 };
     for _ in 0..nrand {
         let scen = gen_scenario(
             &mut rng,
